@@ -29,7 +29,7 @@ fn check(l: &Labels, ev: &mut Ev, s: &[u8], enumerated: bool) {
     ev.count("label-reference.strings");
     let trimmed_is_label = exp.is_some();
     // non-trivial: not byte-identical to a label (edit, case variant, padding) or a near miss
-    if !l.map.contains_key(s) { if enumerated { ev.nontrivial_enum(); } else { ev.nontrivial_hash(H::new().b(s).get()); } }
+    if s.len() > 64 || !l.map.contains_key(s) { if enumerated { ev.nontrivial_enum(); } else { ev.nontrivial_hash(H::new().b(s).get()); } }
     let show = || String::from_utf8_lossy(&s[..s.len().min(80)]).into_owned();
     if tr { println!("TRACE for_label({:?}) [{}] -> {:?}, reference {:?}", show(), hexs(s), r.as_ref().ok(), exp); }
     match r {
